@@ -5,7 +5,8 @@ import gen as G
 import conv
 from props.C01 import nfa_lit
 
-COQ_IMPORTS = ['Model.DFA', 'Model.NFA', 'Model.Regexp', 'Judge.C19_judge']
+COQ_IMPORTS = ['Model.DFA', 'Model.NFA', 'Model.Regexp', 'Model.CFG', 'Model.CFGMisc', 'Judge.Common', 'Judge.C19_judge', 'Judge.Extra_judge']
+EXTRA_JUDGES = ['Extra']
 RULE = ('random DFAs, NFAs, regexps, grammars, PDAs (incl. a closure limit small enough to truncate), TMs; for each object a list of pure operations (acceptance tests, enumerators, minimisers, products, complement, reverse, '
         'prefix-free / non-extendable restrictions, subset construction, NFA star / union / concatenation with the shared default generator, DFA-to-regexp, Chomsky phases, PDA normal forms and PDA-to-CFG, printers, simulations, '
         'two checkers). Every operation is called with an argument snapshot before and after, a second time, again after a prefix of unrelated library calls, and with logging on; the whole case runs in fresh processes with '
@@ -41,6 +42,16 @@ def gen(rng, tier):
         cases.append({'kind': 're', 'X': G.random_re(rng, rng.randint(1, 4), 2)})
     for _ in range(k // 2):
         cases.append({'kind': 'cfg', 'X': G.random_cfg(rng, rng.randint(1, 3), 2, rng.randint(1, 5), maxlen=3)})
+    for _ in range(k // 3):
+        # right-linear grammars (A -> aB | B | epsilon) for cfg_to_nfa, with an occasional rule of another shape
+        V = ['S', 'A', 'B'][:rng.randint(1, 3)]
+        rules = []
+        for _ in range(rng.randint(1, 6)):
+            v = rng.choice(V)
+            shape = rng.random()
+            rhs = [] if shape < 0.25 else ([['V', rng.choice(V)]] if shape < 0.4 else ([['T', rng.choice('ab')], ['V', rng.choice(V)]] if shape < 0.95 else [['T', 'a']]))
+            rules.append([v, rhs])
+        cases.append({'kind': 'cfg', 'X': G.mk_cfg(rules, 'S', extra_vars=V), 'rl': True})
     for _ in range(k // 2):
         p = G.random_pda(rng, rng.randint(1, 3), rng.choice(['a', 'ab']), 'xy', rng.choice(['_', 'ε']), ntrans=rng.randint(1, 6))
         p['delta'] = [t for t in p['delta'] if not (t[1] == p['eps'] and t[4] != p['eps'])]
@@ -181,6 +192,20 @@ def observe(c):
         for f in (A.cfg_to_chomsky, A.cfg_add_new_start_variable, A.cfg_remove_epsilon_rules, A.cfg_eliminate_unit_rules, A.cfg_make_rules_of_length_two, A.cfg_eliminate_terminals):
             probe(f.__name__, lambda f=f: f(Gm), lambda g: sorted(A.cfg_words_up_to_n(g, 3)), snap)
         probe('nullable', lambda: sorted(A.cfg_nullable_variables(Gm)), ident, snap)
+        # grammar utilities outside the Chomsky pipeline (Model/CFGMisc.v)
+        gcanon = lambda g: [sorted(map(str, g.V)), [str(r) for r in g.R], str(g.S)]
+        misc = {}
+        r = probe('productive', lambda: sorted(str(v) for v in A.cfg_productive_variables(Gm)), ident, snap)
+        misc['prod'] = r
+        r = probe('remove_inproductive', lambda: A.cfg_remove_inproductive_variables(Gm), gcanon, snap)
+        misc['inprod'] = conv.cfg_case(r) if r is not None else None
+        r = probe('remove_useless_rules', lambda: A.cfg_remove_useless_rules(Gm), gcanon, snap)
+        misc['useless'] = conv.cfg_case(r) if r is not None else None
+        if c.get('rl'):
+            r = probe('cfg_to_nfa', lambda: A.cfg_to_nfa(Gm), _lang, snap)
+            misc['nfa'] = conv.nfa_case(r) if r is not None else None
+            misc['geps'] = str(Gm.epsilon)
+        extra['misc'] = misc
     elif k == 'pda':
         import gambatools.pda_algorithms as A
         P = conv.pda_obj(x)
@@ -251,6 +276,24 @@ def encode(c, o):
         names = L.nats(st('q%d' % i) for i in range(0, 10))
         return 'judge_C19_nfa %s %s %s 3 %s %s %s %s %s' % (lit, L.lst(W(w) for w in c['ws']), L.lst(L.option(a, L.boolean) for a in e['acc']),
                                                            L.option(e['words'], lambda ws: L.lst(W(w) for w in ws)), det, star, names, _flags(o))
+    if k == 'cfg' and e.get('misc'):
+        m = e['misc']
+        nm = L.Names()
+        for v in x['V'] + x['Sigma'] + ['', m.get('geps', 'ε')]:
+            nm(v)
+        Gl = L.cfg(x, nm)
+        ocfg = lambda g: L.option(g, lambda g: L.cfg(g, nm))
+        terms = ['judge_C19_flags %s' % _flags(o),
+                 'judge_cfg_misc %s %s %s %s' % (Gl, L.option(m['prod'], lambda p: L.nats(nm(v) for v in p)), ocfg(m['inprod']), ocfg(m['useless']))]
+        if c.get('rl'):
+            nf = 'None'
+            if m.get('nfa') is not None:
+                n = m['nfa']
+                f = lambda a: nm('') if a == n['eps'] else nm(a)
+                delta = L.lst(L.pair(L.pair(L.nat(nm(q)), L.nat(f(a))), L.nats(nm(t) for t in ts)) for q, a, ts in n['delta'])
+                nf = '(Some (mkNFA %s %s %s %s %s %s))' % (L.nats(nm(q) for q in n['Q']), L.nats(nm(a) for a in n['Sigma']), delta, L.nat(nm(n['q0'])), L.nats(nm(q) for q in n['F']), L.nat(nm('')))
+            terms.append('judge_cfg_to_nfa %d %d %s %s' % (nm(''), nm(m.get('geps', 'ε')), Gl, nf))
+        return 'worst_code [%s]' % '; '.join(terms)
     return 'judge_C19_flags %s' % _flags(o)
 
 
